@@ -30,6 +30,8 @@ SEQNO_FILTER = "range::seqno_filter"
 
 
 def run(prog, R, tier="quick", only_rule=None):
+    from rules.props import c14
+    c14.c14c(prog, R, rid="C02.g")
     c02a(prog, R)
     c02b(prog, R)
     c02c(prog, R)
